@@ -377,7 +377,7 @@ def run_units(sel, tier, prop, keep=False, jobs=None):
             if not bad:
                 bad = [(hn, c) for hn, c in ur["harnesses"].items() if c["status"] == "FAIL"]
             hn, c = bad[0]
-            vals, why = playback_values(d, hn, 300 if tier == "quick" else 1800)
+            vals, why = (None, "playback skipped (VERIF_NO_PLAYBACK)") if os.environ.get("VERIF_NO_PLAYBACK") else playback_values(d, hn, 300 if tier == "quick" else 1800)
             rep = {"property": prop, "unit": u["id"], "harness": hn, "failed": c["failed"][:5],
                    "values": vals, "values_note": why, "verifier": "kani 0.68.0 / cbmc 6.11",
                    "verifier_output": terse_tail(out, hn), "functions": u.get("functions", []),
